@@ -1,5 +1,5 @@
 (* Pinned statements of C01: re-checked on every run. *)
-From SF Require Import Base.Prelude Gen.Generated Unsized.Types Unsized.Parse Unsized.Machine Unsized.Ops Unsized.Proofs.EncodeParse Unsized.Proofs.Mem Unsized.Proofs.Notify Unsized.Proofs.Flat Unsized.Proofs.Layout Unsized.Proofs.Observe Unsized.Proofs.Path Unsized.Proofs.Context Unsized.Proofs.FocusOps Unsized.Proofs.NotifyInside Unsized.Proofs.Resize Unsized.Proofs.GenOps Unsized.Proofs.History Properties.C01.
+From SF Require Import Base.Prelude Gen.Generated Unsized.Types Unsized.Parse Unsized.Machine Unsized.Ops Unsized.Run Unsized.Proofs.EncodeParse Unsized.Proofs.Mem Unsized.Proofs.Notify Unsized.Proofs.Flat Unsized.Proofs.Layout Unsized.Proofs.Observe Unsized.Proofs.Path Unsized.Proofs.Context Unsized.Proofs.FocusOps Unsized.Proofs.NotifyInside Unsized.Proofs.Resize Unsized.Proofs.GenOps Unsized.Proofs.History Unsized.Proofs.Init Unsized.Proofs.History2 Unsized.Proofs.ExecTie Properties.C01.
 
 Check (C01_flat_step_refines :
   forall ts vs s top o vs',
@@ -78,6 +78,21 @@ Check (C01_general_reborrow :
     plain t = true -> ty_ok true t = true -> wf t v = true ->
     (exists junk, m_mem s = encode t v ++ junk) -> m_len s = zlen (encode t v) -> m_cap s < U32_LIMIT ->
     exists top, get_ptr ovf t (m_mem s) 0 (m_len s) = Ok (top, m_len s) /\ RepF [] t v s top).
+Check (C01_all_ops_step_refines :
+  forall ovf t v s top pi0 o v',
+    RepF pi0 t v s top -> m_refuse s <> 1 -> ostepX (m_cap s) t v o = Some v' ->
+    exists s' top', mstepX ovf t s top o = Ok (s', top', []) /\ RepF (xfocus o) t v' s' top' /\
+                    m_cap s' = m_cap s /\ m_refuse s' = m_refuse s).
+Check (C01_all_ops_run_refines :
+  forall ovf t h v s top pi0 v',
+    RepF pi0 t v s top -> m_refuse s <> 1 -> orunX (m_cap s) t v h = Some v' ->
+    exists s' top' pi', mrunX ovf t s top h = Ok (s', top') /\ RepF pi' t v' s' top' /\ m_cap s' = m_cap s).
+Check (C01_dispatcher_tie :
+  forall ovf t v s top o r,
+    RepF [] t v s top ->
+    (exists X xv, resolve t v (focus_of o) = Some (X, xv) /\ (exists c lw, X = TList c lw)) ->
+    mstepG ovf t s top o = Ok r ->
+    forall fuel, (length (focus_of o) < fuel)%nat -> exec fuel ovf t s top [] (enc_op o) = Ok r).
 
 Print Assumptions C01_flat_step_refines.
 Print Assumptions C01_flat_run_refines.
@@ -94,3 +109,6 @@ Print Assumptions C01_general_run_refines.
 Print Assumptions C01_general_notify_inside.
 Print Assumptions C01_general_observable.
 Print Assumptions C01_general_reborrow.
+Print Assumptions C01_all_ops_step_refines.
+Print Assumptions C01_all_ops_run_refines.
+Print Assumptions C01_dispatcher_tie.
